@@ -25,19 +25,24 @@ func genCluCase(e *Env) *jCluCase {
 	c := &jCluCase{}
 	c.Table = genTable(r, map[string]bool{})
 	c.Points = genDBPoints(r, &c.Table, 15+r.Intn(40))
-	c.P = 1 + r.Intn(4)
+	c.P = 2 + r.Intn(3)
+	if r.Intn(8) == 0 {
+		c.P = 1
+	}
 	c.Replicas = 1 + r.Intn(2)
-	switch r.Intn(5) {
+	switch r.Intn(7) {
 	case 0:
 		c.PartBy = nil
 	case 1:
 		c.PartBy = []string{"d1"}
 	case 2:
 		c.PartBy = []string{"d2"}
-	case 3:
-		c.PartBy = []string{"d2", "d1"}
-	case 4:
+	case 3, 4:
+		c.PartBy = []string{"d2", "d1"} // declared in non-alphabetical order
+	case 5:
 		c.PartBy = []string{"d3", "d9"}
+	case 6:
+		c.PartBy = []string{"d3", "d1"}
 	}
 	c.FlushFollowers = r.Intn(2) == 0
 	t := &c.Table
@@ -147,6 +152,7 @@ func runCluCase(e *Env, c *jCluCase) error {
 	}
 	e.Count(fmt.Sprintf("P=%d", c.P))
 	e.Count(fmt.Sprintf("replicas=%d", c.Replicas))
+	e.Count(fmt.Sprintf("partBy=%v", c.PartBy))
 	e.Add("points", len(c.Points))
 	return nil
 }
